@@ -23,7 +23,7 @@ Not decided: the ring rotation in ring_set_boundaries (the clearing POKE).
 """
 import ast
 
-from ..source import norm, short, qualname
+from ..source import class_methods, norm, short, qualname
 from ..flow import own_nodes
 from ..algebra import lin
 from .. import mutate as mu
@@ -48,7 +48,60 @@ def _branches(fn):
     return out
 
 
+def _empty_is_not_full(ctx, rep):
+    """The buffer position `_start` distinguishes an empty ring (`_start` = length of the list) from a full one
+    (`_start` = length - ring size); the two are congruent modulo the ring size.  A value that is stored into
+    `_start` must therefore never have been reduced modulo the ring size (only the *reported* start/stop are):
+    on the pinned tree ring_set_boundaries did that, and POKE 1050, PEEK(1052) -- an empty window -- produced a
+    full buffer of stale keys (repaired in /repo 7666cf4c)."""
+    cls = ctx.cls(KB + ':KeyboardBuffer')
+    n = 0
+    for m in class_methods(cls).values():
+        stores = [a for a in own_nodes(m) if isinstance(a, (ast.Assign, ast.AugAssign)) and norm(a.targets[0] if isinstance(a, ast.Assign) else a.target) == 'self._start']
+        for st in stores:
+            n += 1
+            feeding = set(x.id for x in ast.walk(st.value) if isinstance(x, ast.Name))
+            reduced = [a for a in own_nodes(m) if isinstance(a, (ast.Assign, ast.AugAssign))
+                       and norm(a.targets[0] if isinstance(a, ast.Assign) else a.target) in feeding | {'self._start'}
+                       and any(isinstance(b, ast.BinOp) and isinstance(b.op, ast.Mod) and 'ring_length' in norm(b.right) for b in ast.walk(a.value))]
+            if isinstance(st, ast.AugAssign) and isinstance(st.op, ast.Mod):
+                reduced.append(st)
+            rep.ob('ring.empty-not-folded-onto-full', 'KeyboardBuffer.%s: the position stored into _start is not reduced modulo the ring size' % m.name, not reduced,
+                   'reduced by %s: an empty window (position = ring size) becomes a full buffer' % [short(r, 40) for r in reduced], ctx.where(st))
+    rep.floor('ring.empty-not-folded-onto-full', n, 3, 'stores to _start')
+    em = class_methods(cls)['empty']
+    rets = [norm(r.value) for r in own_nodes(em) if isinstance(r, ast.Return)]
+    rep.ob('ring.empty-definition', 'the buffer is empty iff the position has reached the end of the list', rets == ['self._start >= len(self._buffer)'], repr(rets), ctx.where(em))
+
+
+def _no_write_only_attributes(ctx, rep):
+    """Every attribute the keyboard module stores is read somewhere in the package.  A store that nothing reads is
+    dead -- or a misspelt store to a field that *is* read (self.check_full = save for self._check_full), which
+    silently leaves the real field unchanged (here: the 15-key limit stays switched off after a paste)."""
+    loads = set()
+    for m in ctx.idx.modules.values():
+        for n in ast.walk(m.tree):
+            if isinstance(n, ast.Attribute) and isinstance(n.ctx, ast.Load):
+                loads.add(n.attr)
+            elif isinstance(n, ast.Constant) and isinstance(n.value, str):
+                loads.add(n.value)
+    mod = ctx.mod(KB)
+    n_stores = 0
+    seen = set()
+    for n in ast.walk(mod.tree):
+        if isinstance(n, ast.Attribute) and isinstance(n.ctx, ast.Store) and norm(n.value) == 'self':
+            n_stores += 1
+            if n.attr not in loads and n.attr not in seen:
+                seen.add(n.attr)
+                rep.ob('fields.no-write-only-attribute', 'keyboard.py: self.%s' % n.attr, False,
+                       'the attribute is stored but never read anywhere: a dead store, or a misspelling of a field that is read', '%s (line %s)' % (KB, n.lineno))
+    rep.ob('fields.no-write-only-attribute', 'every attribute stored in keyboard.py is read somewhere (%d stores)' % n_stores, not seen)
+    rep.floor('fields.no-write-only-attribute', n_stores, 20, 'attribute stores')
+
+
 def check(ctx, rep):
+    _empty_is_not_full(ctx, rep)
+    _no_write_only_attributes(ctx, rep)
     ki = ctx.fn(KB + ':Keyboard.__init__')
     mk = [a for a in own_nodes(ki) if isinstance(a, ast.Assign) and norm(a.targets[0]) == 'self.buf']
     rep.ob('capacity.ring-16', 'the key buffer ring has 16 slots', len(mk) == 1 and norm(mk[0].value) == 'KeyboardBuffer(queues, 16, check_full)', '', ctx.where(ki))
@@ -130,6 +183,10 @@ def variants(ctx):
         return lambda tree: f(mu.find_def(tree, f_name))
 
     return [
+        Va('empty-window-folded-onto-full', 'break', KB,
+           in_fn('KeyboardBuffer.ring_set_boundaries', lambda fn: mu.insert_before(fn, mu.stmt_has('start % self._ring_length != newstart', ast.While), 'start = start % self._ring_length')), expect='ring.empty-not-folded'),
+        Va('limit-restored-into-misspelt-field', 'break', KB,
+           in_fn('KeyboardBuffer.ignore_limit', lambda fn: mu.replace_stmt(fn, mu.text_is('self._check_full = save'), 'self.check_full = save')), expect='fields.no-write-only'),
         Va('ring-32', 'break', KB, in_fn('Keyboard.__init__', lambda fn: mu.replace_expr(fn, mu.text_is('KeyboardBuffer(queues, 16, check_full)'), 'KeyboardBuffer(queues, 32, check_full)')), expect='capacity.ring'),
         Va('accepts-16th-key', 'break', KB,
            in_fn('KeyboardBuffer.append', lambda fn: mu.replace_expr(fn, mu.text_is('len(self._buffer) - self._start >= self._ring_length - 1'), 'len(self._buffer) - self._start >= self._ring_length')),
